@@ -36,6 +36,14 @@ def load_known_findings():
         return json.load(f)['findings']
 
 
+def _known_py(expr, rec):
+    """optional python predicate of a known-findings entry over the record (rec) - for input classes a regex cannot express"""
+    try:
+        return bool(eval(expr, {'re': re, 'rec': rec, '__builtins__': {'int': int, 'float': float, 'len': len, 'abs': abs, 'min': min, 'max': max}}))
+    except Exception:
+        return False
+
+
 def run_plain(script, timeout=120, env=None):
     """Run a python snippet against the uninstrumented library (plain import
     athlib from /repo's working tree) and return (exit, stdout, stderr)."""
@@ -200,6 +208,8 @@ class Check:
             if m.get('label_regex') and not re.search(m['label_regex'], record.get('label', '')):
                 continue
             if m.get('job_regex') and not re.search(m['job_regex'], record.get('job', '')):
+                continue
+            if m.get('py') and not _known_py(m['py'], record):
                 continue
             return k
         return None
